@@ -79,6 +79,7 @@ def observe (s : Sys) : String :=
     if c.pending v dn = 0 then none else some s!"{v}.{dn}:{c.pending v dn}"))
   let nored := valUniverse.filterMap (fun v => if c.noRedelegate v then some (toString v) else none)
   let nound := valUniverse.filterMap (fun v => if c.noUndelegate v then some (toString v) else none)
+  let inact := valUniverse.filterMap (fun v => if c.inactive v then some (toString v) else none)
   String.intercalate " " [
     s!"hub.raw={hubStateS h}", s!"hub.q={hubQ}",
     s!"batch={h.batchId},{h.reqB},{h.reqS}",
@@ -90,7 +91,7 @@ def observe (s : Sys) : String :=
     s!"rw={r.globalIndex},{r.totalBalance},{r.prevRewardBalance};cfg={r.owner},{r.newOwner},{r.hub},{r.rewardDenom},{r.swapContract},[{joinC (r.swapDenoms.map toString)}];h[{joinC holders}]",
     s!"disp={d.owner},{d.newOwner},{d.hub},{d.rewardContract},{d.stDenom},{d.bDenom},{d.keeper},{d.keeperRate},{d.swapContract},{d.oracle},[{joinC (d.swapDenoms.map toString)}]",
     s!"reg={s.reg.owner},{s.reg.newOwner},{s.reg.hub};[{joinC regQ}]",
-    s!"chain={c.time},{c.height};bank[{joinC bank}];deleg[{joinC deleg}];unb[{String.intercalate "" unb}];pend[{joinC pend}];wa={c.withdrawAddr};nored[{joinC nored}];noundel[{joinC nound}]"]
+    s!"chain={c.time},{c.height};bank[{joinC bank}];deleg[{joinC deleg}];unb[{String.intercalate "" unb}];pend[{joinC pend}];wa={c.withdrawAddr};nored[{joinC nored}];noundel[{joinC nound}];inactive[{joinC inact}]"]
 
 /-! ### parsing -/
 
@@ -239,6 +240,9 @@ def step (s : Sys) (line : String) : Sys × String :=
     | _ => bad
   | ["env", "noredel", v, b] => match pNat v, pBool b with
     | some v, some b => let s' := s.env (.blockRedelegation v b); (s', "ok | " ++ observe s')
+    | _, _ => bad
+  | ["env", "inactive", v, b] => match pNat v, pBool b with
+    | some v, some b => let s' := s.env (.setInactive v b); (s', "ok | " ++ observe s')
     | _, _ => bad
   | ["env", "noundel", v, b] => match pNat v, pBool b with
     | some v, some b => let s' := s.env (.blockUndelegation v b); (s', "ok | " ++ observe s')
